@@ -167,6 +167,7 @@ func runC12(w *World, r *Report) {
 	c12Namespaces(w, r)
 	c12Live(w, r)
 	c12Resolution(w, r)
+	collectorRules(w, r, "C12/resolution", "")
 	c12Order(w, r)
 	c12Options(w, r)
 	r.assume("cobra's RunE error becomes rootCmd.Execute()'s error")
@@ -628,6 +629,113 @@ func derivesFrom(v ssa.Value, src ssa.Value, depth int) bool {
 		}
 	}
 	return false
+}
+
+// fieldCollectors: model-visitor functions that append declared fields (results of the VisitField* routines) to a field list.
+func fieldCollectors(w *World) []*ssa.Function {
+	var out []*ssa.Function
+	for _, fn := range parsePhaseFuncs(w) {
+		if recvNamedCore(fn) != "PacketDslVisitorImpl" {
+			continue
+		}
+		collects := false
+		forEachInstr(fn, func(b *ssa.BasicBlock, ins ssa.Instruction) {
+			c, ok := ins.(*ssa.Call)
+			if !ok {
+				return
+			}
+			bi, ok := c.Call.Value.(*ssa.Builtin)
+			if !ok || bi.Name() != "append" {
+				return
+			}
+			sl, ok := c.Type().Underlying().(*types.Slice)
+			if !ok || !typeIs(sl.Elem(), modPath+"/internal/model", "Field") {
+				return
+			}
+			collects = true
+		})
+		if collects {
+			out = append(out, fn)
+		}
+	}
+	return out
+}
+
+// collectorRules: every field collector (a) diagnoses a length-of field it may not hold (or is the root collector that links it)
+// and (b) links match fields to their key field through a checked lookup. Sibling rule over the collectors.
+func collectorRules(w *World, r *Report, ruleLen, ruleLink string) {
+	cols := fieldCollectors(w)
+	if len(cols) < 2 {
+		r.fail(ruleLink, "field collectors found", "internal/parser/packet_dsl_parser.go", fmt.Sprintf("expected the packet and inline-object collectors, found %d", len(cols)))
+	}
+	for _, fn := range cols {
+		// (a) a checked assertion to *LengthFieldAttribute whose ok edge reaches AddSyntaxError
+		lenDiag := false
+		for _, b := range fn.Blocks {
+			iff, ok := b.Instrs[len(b.Instrs)-1].(*ssa.If)
+			if !ok {
+				continue
+			}
+			ex, ok := iff.Cond.(*ssa.Extract)
+			if !ok || ex.Index != 1 {
+				continue
+			}
+			ta, ok := ex.Tuple.(*ssa.TypeAssert)
+			if !ok || !ta.CommaOk || modelTypeName(ta.AssertedType) != "LengthFieldAttribute" {
+				continue
+			}
+			for _, bb := range fn.Blocks {
+				if edgeDominates(b, 0, bb) {
+					for _, i2 := range bb.Instrs {
+						if isAddSyntaxError(i2) {
+							lenDiag = true
+						}
+					}
+				}
+			}
+		}
+		if ruleLen != "" {
+			key := fnKey(fn) + " diagnoses a length-of field it must not hold"
+			if lenDiag {
+				r.pass(ruleLen, key, w.pos(fn.Pos()), "")
+			} else {
+				r.fail(ruleLen, key, w.pos(fn.Pos()), "this routine collects declared fields but never tests for a length-of field: `@lengthOf` outside the root packet (e.g. inside an inline object) is accepted, its placeholder is emitted and never back-patched")
+			}
+		}
+		// (b) MatchKeyField assigned from a found lookup
+		if ruleLink != "" {
+			linked := false
+			tests := membershipTests(fn)
+			forEachInstr(fn, func(b *ssa.BasicBlock, ins ssa.Instruction) {
+				st, ok := ins.(*ssa.Store)
+				if !ok {
+					return
+				}
+				fa, ok := st.Addr.(*ssa.FieldAddr)
+				if !ok {
+					return
+				}
+				if tn, f, _, _ := fieldOf(fa); tn != "MatchFieldAttribute" || f != "MatchKeyField" {
+					return
+				}
+				if ex, ok := stripIdentity(st.Val).(*ssa.Extract); ok {
+					if lk, ok := ex.Tuple.(*ssa.Lookup); ok && lk.CommaOk {
+						for _, t := range tests {
+							if t.lookup == lk && edgeDominates(t.branch, t.presentSucc, b) {
+								linked = true
+							}
+						}
+					}
+				}
+			})
+			key := fnKey(fn) + " links match fields to their key field"
+			if linked {
+				r.pass(ruleLink, key, w.pos(fn.Pos()), "")
+			} else {
+				r.fail(ruleLink, key, w.pos(fn.Pos()), "this routine collects declared fields (a match field among them is grammatical) but never replaces the key-field placeholder by the declared field: generators dereference the placeholder's missing attribute")
+			}
+		}
+	}
 }
 
 // ---- live diagnostics ----
